@@ -376,8 +376,9 @@ static void gen(hx_plan_t *p, hx_rng_t *r)
     static const int bc[] = {-1, 0, 1, 2};
     hx_set_knob(p, "coll_bcast", bc[hx_below(r, 4)]);
     hx_set_knob(p, "short_limit", hx_chance(r, 50) ? -1 : 0);
-    hx_set_knob(p, "aggregate", hx_chance(r, 30) ? 0 : -1);
-    hx_set_knob(p, "thread_multiple", hx_chance(r, 25) ? 1 : -1);
+    hx_set_knob(p, "aggregate", hx_chance(r, 40) ? -1 : hx_chance(r, 50));
+    hx_set_knob(p, "thread_multiple", hx_chance(r, 50) ? -1 : hx_chance(r, 50));
+    hx_set_knob(p, "mpi_multiple", hx_chance(r, 50));
     /* histories: `--knob hist=` selects the family (0 single taskpool, 15 composition, 6 API history) */
     long hist = hx_cli_knob("hist", 0);
     if (hist == 15) {
@@ -510,6 +511,7 @@ static void run(const hx_plan_t *p, hx_result_t *res)
     cfg.testsome_lag_pct = (int)hx_knob(p, "net_lag", 0);
     cfg.testsome_lag_max = 3;
     cfg.late_send_pct = (int)hx_knob(p, "net_late", 0);
+    cfg.thread_level = hx_knob(p, "mpi_multiple", 0) ? MPI_THREAD_MULTIPLE : 0;      /* the library grants MPI_THREAD_MULTIPLE although the driver asks for SERIALIZED: PaRSEC then goes multi-threaded on MPI */
     simmpi_reset(SH.nranks, hx_current_seed(), &cfg);
     memset(cb_count_rank, 0, sizeof(cb_count_rank));
     memset(ut_delivered, 0, sizeof(ut_delivered));
